@@ -268,6 +268,9 @@ def r03_7(ctx):
     repo = ctx.repo
     gp = repo.func("gaftools.gfa", "GFA.get_path", "R03.7")
     ctx.analysed_func(gp)
+    from ..core import inlined, tail_inlined
+
+    gp = inlined(repo, tail_inlined(repo, gp, keep=lambda c: not c.name.startswith("_")))  # private helpers (a sorting helper) read in place
     sorted_defs = [st for st in walk_own(gp.node) if isinstance(st, ast.Assign) and isinstance(st.value, ast.Call) and norm(st.value.func) == "sorted"]
     ok_sort = False
     svar = None
